@@ -1,7 +1,7 @@
 /* Correspondence driver, engine "fmt" (C01): opens dump files through the
  * public API only and prints geometry + per-read status/length/hash.
  *
- * case line:  <nfiles> <path>... [O=<oracle file, ignored here>] <req>...
+ * case line:  <nfiles> <path>... [<letter>=<...> tokens for the model side, ignored here] <req>...
  *   G                     geometry attributes
  *   Z0 | Z1               file.zero_excluded := 0 | 1
  *   R<as>:<addr>:<len>    kdump_read; as = M (machphys) K (kphys) V (kvaddr)
@@ -60,7 +60,7 @@ int main(int argc, char **argv)
 			goto done;
 		}
 		while ((tok = strtok_r(NULL, " ", &save))) {
-			if (tok[0] == 'O' && tok[1] == '=')
+			if (tok[0] && tok[1] == '=')	/* F= L= I=: for the model side */
 				continue;
 			if (!first) putchar(' ');
 			first = 0;
